@@ -110,6 +110,12 @@ def run(prop, tier, seed):
             ls = pool.apply(_ls_elements, (0,))
         pools.update(ls)
         pools['fsrule_un'] = list(pools.get('fsrule', []))       # the same rules through the MP_UNREACH_NLRI decoder
+        # sub-TLV lists inside the SRv6 TLVs of the BGP-LS attribute: the SID structure sub-TLV and sub-TLVs of unknown types
+        # (every type code is a number like any other: 0, 1, 255, 9999, 65535) with 0..5 value octets
+        subs = [struct.pack('!HH', 1252, 4).hex() + v for v in ('20100800', '00000000', 'ffffffff', '28181000')]
+        subs += [struct.pack('!HH', t, n).hex() + 'a1b2c3d4e5'[:2 * n] for t in (0, 1, 255, 9999, 65535) for n in (0, 1, 4, 5)]
+        pools['srv6loc_sub'] = list(subs)
+        pools['srv6endx_sub'] = list(subs)
         # IPv4 prefixes through the decoder of the multiprotocol attributes, and both decoders with add-path identifiers
         # (a different identifier in front of every element)
         v4 = sorted(set(pools.get('v4prefix', [])))
@@ -228,6 +234,13 @@ def run(prop, tier, seed):
                 b = rnd.choice(pool_)
                 jobs.append((ident, 'insert', kind, kind + ':insert', [a, unknown[kind], b], None))
                 ident += 1
+        # sub-TLVs of unknown types (type code 0 among them) between known ones inside the SRv6 TLVs
+        for kind in ('srv6loc_sub', 'srv6endx_sub'):
+            known = [h for h in pools[kind] if h.startswith('04e4')]
+            for u in [h for h in pools[kind] if not h.startswith('04e4')]:
+                for a, b in ((known[0], known[1]), (known[2], known[0])):
+                    jobs.append((ident, 'insert', kind, kind + ':insert', [a, u, b], None))
+                    ident += 1
         # EVPN routes of types the decoder has no parser for (RFC 9251 SMET 6, RFC 9572 S-PMSI 10, 0, 255) between known ones
         pool_ = sorted(set(pools.get('evpn', [])))
         for a in pool_[::(7 if tier == 'quick' else 1)]:
